@@ -48,6 +48,7 @@ FUNCS = [
     ("ubxmessage.py", "UBXMessage._do_attributes"), ("ubxmessage.py", "UBXMessage._get_dict"),
     ("ubxmessage.py", "UBXMessage.identity"), ("ubxmessage.py", "UBXMessage.__init__"),
     ("ubxmessage.py", "UBXMessage.__setattr__"), ("ubxmessage.py", "UBXMessage.__delattr__"),
+    ("ubxmessage.py", "UBXMessage.__repr__"),
 ]
 
 
@@ -60,7 +61,7 @@ def enc(s: str) -> int:
 
 
 # functions whose f-strings are evaluated part by part (see `Tr.E`, JoinedStr)
-EVAL_FSTRINGS = {"cfgkey2name"}
+EVAL_FSTRINGS = {"cfgkey2name", "UBXMessage.__repr__"}
 
 
 class Tr:
